@@ -298,13 +298,16 @@ def check_relative_positions(rep, fx):
     (start + n); a bound that is the parameter itself is a position inside the backing buffer."""
     tr = {'bitstr::Bitstr': {'range'}}
     n = 0
+    from .. import inline as _inl
+    Vrel = _inl.View(fx)
     for fn in sorted(fx.fns):
         if not fn.startswith('bitstr::Bitstr::') or '{closure' in fn:
             continue
-        f = fx.fns[fn]
-        if f.j.get('vis') != 'pub':
+        f0 = fx.fns[fn]
+        if f0.j.get('vis') != 'pub':
             continue
-        params = [k for k in range(2, f.argc + 1) if f.local_ty(k) == 'usize']
+        f = Vrel(fn)          # private helpers (`abs_pos`, `with_range`) are looked through
+        params = [k for k in range(2, f0.argc + 1) if f0.local_ty(k) == 'usize']
         if not params:
             continue
         bad = []
@@ -360,26 +363,31 @@ def check_relative_positions(rep, fx):
     from .. import inline
     from .c08 import type_of_operand
     from ..pathq import blocks_after
-    V = inline.View(fx)
     n_box = 0
+    DET = 'bitstr::Bitstr::detach'
+    detachers = {fn for fn in fx.fns if DET in fx.reachable_from([fn])} | {DET}       # functions through which a detached copy can be made
+    boxers = {}        # functions of the API (and their private helpers) that box a Cell
     for fn in sorted(fx.fns):
-        if not fn.startswith('c_api::') or (V.transparent(fn) and fx.callers().get(fn)):
+        if not fn.startswith('c_api::'):
             continue
-        f = V(fn)
-        det = [bb for bb, t in f.calls() if callee_of(t) == 'bitstr::Bitstr::detach']
-        after = set()
-        for d in det:
-            after |= blocks_after(f, d) | {d}
+        f = fx.fns[fn]
         for bb, t in f.calls():
-            if (callee_of(t) or '') != 'alloc::boxed::Box::<T>::new' or 'cell::Cell' != type_of_operand(f, t['args'][0]).strip():
-                continue
+            if (callee_of(t) or '') == 'alloc::boxed::Box::<T>::new' and 'cell::Cell' == type_of_operand(f, t['args'][0]).strip():
+                boxers.setdefault(fn, []).append((bb, t))
+    for fn, sites in sorted(boxers.items()):
+        f = fx.fns[fn]
+        before = set()
+        for bb, t in f.calls():
+            if callee_of(t) in detachers:
+                before |= blocks_after(f, bb) | {bb}
+        for bb, t in sites:
             n_box += 1
-            okb = bb in after
+            okb = bb in before
             rep.add('C04.R3', 'C04.R3:%s:cell-for-C-owns-aligned-storage' % fn, okb,
                     'a bit-string that does not sit on byte boundaries of its buffer is detached before the cell is boxed' if okb else
                     '%s boxes a cell for C as it is: the bytes of a whole-byte bit-string that starts inside a byte of its buffer cannot be lent '
                     'out (NULL), those of the equal literal can' % short(fn), fn, t.get('at'))
-    rep.floor('C04.R3 cells boxed for C', n_box, 2)
+    rep.floor('C04.R3 cells boxed for C', n_box, 1)
 
 
 def _unconditional(f, bb, dom):
